@@ -67,6 +67,12 @@ def cells():
                 key = "%s:%s" % (sid, wid)
                 # constness sources that admit this shape
                 yield ("const-global:" + key, c, model(gdecl=d, assign=stmt, elem=el))
+                # the global update hooks are updates, too
+                if sid not in ("array-element-var-index",):
+                    yield ("const-global-written-in-before-update:" + key, c, model(gdecl=d + " before_update { %s }" % stmt, elem=el))
+                    yield ("const-global-written-in-after-update:" + key, c, model(gdecl=d + " after_update { mo = 2, %s }" % stmt, elem=el))
+                    yield ("const-global-written-in-after-update-next-to-before-update:" + key, c,
+                           model(gdecl=d + " before_update { mo = 1 } after_update { %s }" % stmt, elem=el))
                 yield ("const-template-local:" + key, c, model(ldecl=d, assign=stmt, elem=el))
                 yield ("const-template-local-of-unused-template:" + key, c, model(ldecl=d, assign=stmt, elem=el, unused=True))
                 yield ("const-global-written-in-unused-template:" + key, c, model(gdecl=d, assign=stmt, elem=el, unused=True))
